@@ -555,6 +555,12 @@ func (g *genState) next() map[string]any {
 		if r.Chance(1, 5) {
 			o["timeout"] = hcommon.Pick(r, []any{50, 100, 1000, 0, -5, "x"})
 		}
+		if g.prop == "C13" && r.Chance(1, 3) {
+			// timeouts of centuries: in milliseconds they do not fit a time.Duration; the call
+			// must simply never time out within the run (F21; seeded change C13-9: a product
+			// that wraps around to a small positive duration)
+			o["timeout"] = hcommon.Pick(r, []any{18446744073710, 9223372036855, 9223372036854, 27670116110565})
+		}
 		if r.Chance(1, 10) {
 			o["progress"] = true
 		}
